@@ -59,6 +59,10 @@ def explore_tokens(chunk):
                     continue
                 t0 = toks[0]
                 agg.cls(("first", tok, fol == ""))
+                if agg.n["steps"] % 4001 == 0:
+                    agg.sample({"text": text, "first_token": t0.value,
+                                "reported": [t0.pos.filename, t0.pos.line],
+                                "expected_line": l0}, 4)
                 if t0.pos.line != l0 or t0.pos.filename != NAME:
                     agg.violation(
                         {"what": "token-line", "follower": repr(fol),
@@ -337,6 +341,9 @@ def explore_faults(chunk):
                                           lead, inner)
                     agg.count("steps")
                     agg.cls(("fault", name, inner is None, len(bad) == 0))
+                    if agg.n["steps"] % 500 == 1:
+                        agg.sample({"fault": name, "text": text,
+                                    "mismatches": bad}, 2)
                     for what, want, got in bad:
                         agg.violation(
                             {"what": "fault:" + what, "fault": name,
@@ -380,9 +387,6 @@ def main(tier, seed):
     agg.merge(a2)
     agg.merge(core.pmap(explore_faults, [{"faults": [i]}
                                          for i in range(len(FAULTS))]))
-    agg.sample({"text": "x\n+ y", "expected_lines": [1, 2, 2]})
-    agg.sample({"fault": FAULTS[7][1], "expects": "error line of statement "
-                "0 and stack entries f@stmt1 g@stmt2 h@stmt3"})
     core.finish(
         PID, tier, seed, agg, t0,
         rule=(f"{len(TOKEN_KINDS)} token kinds x {len(FOLLOWERS)} followers "
